@@ -1,16 +1,16 @@
 """Per-property claims (source of MANIFEST.json; tools/gen_manifest.py renders it)."""
 HOOK_COMMITS = []
 ENGINES = [
-    {"name": "lean-model", "path": "lean/", "serves_properties": ["C01", "C02", "C03", "C04", "C05", "C07", "C11", "C12", "C16", "C17", "C20"],
+    {"name": "lean-model", "path": "lean/", "serves_properties": ["C01", "C02", "C03", "C04", "C05", "C07", "C13", "C11", "C12", "C16", "C17", "C20"],
      "kind_free_text": "Lean 4 library Dbus (Spec, Model, Proofs, Props) + compiled line-protocol driver dbus-model"},
-    {"name": "tabulator", "path": "gen/", "serves_properties": ["C01", "C02", "C03", "C04", "C05", "C07", "C11", "C12", "C16", "C17", "C20"],
+    {"name": "tabulator", "path": "gen/", "serves_properties": ["C01", "C02", "C03", "C04", "C05", "C07", "C13", "C11", "C12", "C16", "C17", "C20"],
      "kind_free_text": "C translation units that #include repo sources and print finite tables; rendered to lean/Dbus/Generated"},
-    {"name": "h-lib", "path": "harness/lib/", "serves_properties": ["C01", "C02", "C03", "C04", "C05", "C07", "C11", "C12", "C16", "C17", "C20"],
+    {"name": "h-lib", "path": "harness/lib/", "serves_properties": ["C01", "C02", "C03", "C04", "C05", "C07", "C13", "C11", "C12", "C16", "C17", "C20"],
      "kind_free_text": "in-process C harnesses linked against the ASan/UBSan build of the working tree"},
 ]
 PENDING = "not implemented yet in this round (planned, see DESIGN.md §4/§7); no check is claimed"
 NOT_APPLICABLE = {p: PENDING for p in
-                  [ "C06", "C08", "C09", "C10", "C13", "C14", "C15",
+                  [ "C06", "C08", "C09", "C10", "C14", "C15",
                    "C18", "C19"]}
 BUS_TIE = ("The bus model (lean/Dbus/Model/Bus: dispatch, driver methods, registry, match delivery, policy gate, pending replies, "
            "disconnect cleanup; method table regenerated from bus/driver.c) is tied to the real dbus-daemon (ASan/UBSan build of the working "
@@ -38,6 +38,19 @@ CHECKS = {
                 "(undeliverable_one_error); the forwarded copy keeps body, signature, type, flags, serial and every defined header field "
                 "but SENDER (forwarded_fields_intact, forwarded_rest_intact); outputs extend in processing order. " + BUS_TIE,
         "note": "Partial: 'recipients that read slowly' (socket back-pressure, max_outgoing_bytes) and auto-start holding (C19) are outside this model; the daemon is single-threaded, so 'the moment the bus processes it' is a step of the model.",
+    },
+    "C13": {
+        "text": "Proved in Lean as an invariant of every reachable state (generic leaf induction over step: every state-changing "
+                "primitive of the model keeps it, under any configured limit values): match rules per connection <= max_match_rules, "
+                "owner-queue memberships per connection (unique name included) <= max(1, max_names), outstanding calls per caller <= "
+                "max_replies, registered connections <= max_completed, per user <= max_connections_per_user (limits_never_exceeded), "
+                "the limits themselves are constant (limits_constant); the request at the limit is refused and changes nothing "
+                "(names_limit_refuses/_error, rules_limit_refuses, connections_limit_refuses, per_user_limit_refuses, "
+                "replies_limit_refuses), below the limit it proceeds (below_*), and an over-long message costs only its sender the "
+                "connection (oversized_only_sender_dropped with C01.message_size_limit). " + BUS_TIE +
+                "Five limit profiles with small limits (rules 3, names 3, completed 3 / per user 2 with connections of three uids, replies 2, "
+                "max_message_size 1024 with messages of exactly limit-9..limit+64 bytes and shuffled header fields).",
+        "note": "max_incomplete_connections / auth timeouts (not-yet-authenticated connections) are outside the model: they concern the listener, not step; recorded as partial.",
     },
     "C04": {
         "text": "The specification's RequestName/ReleaseName rules are written out in Lean (Spec/Names.lean, from doc/dbus-specification.xml). "
